@@ -1,2 +1,94 @@
-(* C06 - placeholder while the proofs are being written *)
-Require Import GT.RenderSpec GT.RenderModel.
+(* C06 - both documents can be read back from the rendered diff.
+   Statements only; proofs live in GT.RenderProofs.  jrender / tprint / nproj: GT.RenderModel (model of
+   JSONFormatter's annotated output, tied to the code by byte-exact correspondence on every run);
+   erase / marks / toks / sim ("~": equal token lists, commas and whitespace outside strings only separate):
+   GT.RenderSpec. *)
+From Coq Require Import List Bool ZArith.
+Require Import GT.PyBase GT.Data GT.ScriptSpec GT.JsonSpec GT.JsonModel GT.RenderSpec GT.RenderModel GT.RenderProofs.
+Import ListNotations.
+Open Scope Z_scope.
+
+(* For ALL trees, ALL scripts (valid or not) and all layouts: deleting the inserted characters leaves, token
+   for token, the plain print of the document  nproj false a b e  that the script spells for the first side
+   (a's children where matched at a cost or removed, in script order); deleting the removed ones leaves the
+   print of  nproj true a b e.  Hypotheses: numbers print as non-empty atoms, string characters are
+   non-negative code points (tok_ok, edit_ok). *)
+Theorem C06_first : forall lay a b e, tok_ok a = true -> tok_ok b = true -> edit_ok e = true ->
+  toks (erase Inserted (jrender lay a b e)) = ttoks (nproj false a b e).
+Proof. exact C06_first_all. Qed.
+
+Theorem C06_second : forall lay a b e, tok_ok a = true -> tok_ok b = true -> edit_ok e = true ->
+  toks (erase Removed (jrender lay a b e)) = ttoks (nproj true a b e).
+Proof. exact C06_second_all. Qed.
+
+(* ttoks is the token list of the plain print, in every layout and at every indentation *)
+Theorem C06_ttoks : forall lay n t, tok_ok t = true -> toks (tprint lay n t) = ttoks t.
+Proof. exact toks_tprint. Qed.
+
+(* The rendering carries no change marks exactly when the script shows nothing (qn), and for a valid (C01),
+   additive (C03) script whose removals and insertions cost something: exactly when its cost is 0. *)
+Theorem C06_marks : forall lay a b e, tok_ok a = true -> tok_ok b = true ->
+  (marks (jrender lay a b e) = [] <-> qn a e = true).
+Proof. exact C06_marks_all. Qed.
+
+Theorem C06_marks_cost : forall lay a b e, tok_ok a = true -> tok_ok b = true ->
+  valid a b e = true -> kvp2 e = true -> additive e = true -> pos_costs e = true ->
+  (marks (jrender lay a b e) = [] <-> cost e = 0).
+Proof. exact C06_marks_cost_all. Qed.
+
+(* Both projections ARE the documents (up to "~"), for every valid script over ordered containers (lists,
+   leaves, strings, key/value pairs) whose zero-cost matches pair nodes that print alike.
+   PARTIAL: for scripts containing mapping edits (KMultiSet / KFixedDict) C06_first / C06_second / C06_reads give
+   the exact document each projection spells and reads as (members in script order); that this document equals
+   a resp. b up to the order of mapping members (jv_equiv (value_of (nproj side a b e)) (value_of a)) is not
+   proved - it is evaluated on every implementation output by holds_C06. *)
+Theorem C06_text_partial : forall lay a b e,
+  tok_ok a = true -> tok_ok b = true -> edit_ok e = true ->
+  valid a b e = true -> Faithful a b e -> ordered_only e = true -> kvp2 e = true ->
+  sim (erase Inserted (jrender lay a b e)) (tprint lay 0 a) /\
+  sim (erase Removed (jrender lay a b e)) (tprint lay 0 b).
+Proof. exact C06_ordered_partial_all. Qed.
+
+(* The corollaries through C12 (jparse_lenient = C12's strict reader on the comma-repaired token list):
+   every projection reads as the document the script spells for that side; for valid scripts over ordered
+   containers that is the document itself.  json-shaped trees (jshape), JSON-domain values (jwfb false). *)
+Theorem C06_reads : forall side lay a b e, tok_ok a = true -> tok_ok b = true -> edit_ok e = true ->
+  jshape (nproj side a b e) = true -> is_kvp (nproj side a b e) = false ->
+  jwfb false (value_of (nproj side a b e)) = true ->
+  jparse_lenient (erase (em side) (jrender lay a b e)) = Some (value_of (nproj side a b e)).
+Proof. exact C06_reads_all. Qed.
+
+Theorem C06_reads_ordered_partial : forall lay a b e,
+  tok_ok a = true -> tok_ok b = true -> edit_ok e = true ->
+  valid a b e = true -> Faithful a b e -> ordered_only e = true -> kvp2 e = true ->
+  (jshape a = true -> is_kvp a = false -> jwfb false (value_of a) = true ->
+   jparse_lenient (erase Inserted (jrender lay a b e)) = Some (value_of a)) /\
+  (jshape b = true -> is_kvp b = false -> jwfb false (value_of b) = true ->
+   jparse_lenient (erase Removed (jrender lay a b e)) = Some (value_of b)).
+Proof. exact C06_reads_ordered_all. Qed.
+
+(* necessity of the hypotheses = the open findings: D4 (zero-cost match of 1 and 1.0) and D16 (zero-cost removal) *)
+Theorem C06_text_refuted_D4 :
+  exists lay a b e, tok_ok a = true /\ tok_ok b = true /\ edit_ok e = true /\ valid a b e = true /\
+                    ordered_only e = true /\ kvp2 e = true /\
+                    ~ sim (erase Removed (jrender lay a b e)) (tprint lay 0 b).
+Proof. exact C06_zero_cost_match_refuted. Qed.
+
+Theorem C06_marks_cost_refuted_D16 :
+  exists lay a b e, tok_ok a = true /\ tok_ok b = true /\ valid a b e = true /\ kvp2 e = true /\ additive e = true /\
+                    cost e = 0 /\ marks (jrender lay a b e) <> [].
+Proof. exact C06_marks_cost_refuted. Qed.
+
+Example C06_hypotheses_example :
+  tok_ok ex_a = true /\ tok_ok ex_b = true /\ edit_ok ex_e = true /\ valid ex_a ex_b ex_e = true /\
+  Faithful ex_a ex_b ex_e /\ ordered_only ex_e = true /\ kvp2 ex_e = true /\ additive ex_e = true /\
+  pos_costs ex_e = true /\ cost ex_e <> 0 /\ marks (jrender (false, false) ex_a ex_b ex_e) <> [].
+Proof. exact C06_hypotheses_inhabited. Qed.
+
+Print Assumptions C06_first.
+Print Assumptions C06_second.
+Print Assumptions C06_marks.
+Print Assumptions C06_marks_cost.
+Print Assumptions C06_text_partial.
+Print Assumptions C06_reads.
+Print Assumptions C06_reads_ordered_partial.
